@@ -209,6 +209,47 @@ class G:
                 return True
         return False
 
+    def eliminate_returns(self, body, helper: str):
+        """Early `return`s of an inlined helper (no value) are removed by the usual structured rewriting: a thread-local flag
+        `__returned_<helper>` starts as None, `return` sets it (to the thread's own identifier: a value the guard language
+        has), and the statements that follow a statement which may return run only while the flag is still None. The result is
+        ordinary code for this translator (`with lock:` blocks are left through their normal exit, so the lock is released)."""
+        flag = f'__returned_{helper}_{self.ntmp}'
+        self.ntmp += 1
+
+        def may_return(st):
+            return any(isinstance(n, ast.Return) for n in ast.walk(st))
+
+        def parse1(text):
+            return ast.parse(text).body[0]
+
+        def elim(stmts):
+            out = []
+            for i, st in enumerate(stmts):
+                if isinstance(st, ast.Return):
+                    if st.value is not None and not (isinstance(st.value, ast.Constant) and st.value.value is None):
+                        raise TranslationError(f'helper {helper} returns a value at line {st.lineno}')
+                    out.append(ast.copy_location(parse1(f'{flag} = threading.get_ident()'), st))
+                    return out          # the rest of this block is unreachable
+                if may_return(st):
+                    if isinstance(st, ast.If):
+                        new = ast.If(test=st.test, body=elim(st.body) or [ast.Pass()], orelse=elim(st.orelse))
+                    elif isinstance(st, ast.With):
+                        new = ast.With(items=st.items, body=elim(st.body) or [ast.Pass()])
+                    else:
+                        raise TranslationError(f'early return inside a {type(st).__name__} statement of helper {helper} at line {st.lineno}')
+                    out.append(ast.fix_missing_locations(ast.copy_location(new, st)))
+                    rest = elim(stmts[i + 1:])
+                    if rest:
+                        guard = ast.If(test=ast.parse(f'{flag} is None', mode='eval').body, body=rest, orelse=[])
+                        out.append(ast.fix_missing_locations(ast.copy_location(guard, st)))
+                    return out
+                out.append(st)
+            return out
+
+        first = ast.copy_location(parse1(f'{flag} = None'), body[0])
+        return [first] + elim(body)
+
     def method_call(self, call: ast.Call):
         f = call.func
         if isinstance(f, ast.Attribute) and isinstance(f.value, ast.Name) and f.value.id in ('self', 'cls', self.cls.name) \
@@ -322,6 +363,8 @@ class G:
                     body = list(self.methods[m].body)
                     if body and isinstance(body[-1], ast.Return) and body[-1].value is None:
                         body = body[:-1]
+                    if any(isinstance(n, ast.Return) for b in body for n in ast.walk(b)):
+                        body = self.eliminate_returns(body, m)
                     return self.block(body)
                 finally:
                     self.inlining.pop()
